@@ -12,7 +12,6 @@ attributes, `assign`'s append / non-append matrix, `assign_at_index`, `unset_ind
 `brush-builtins/src/export.rs` (`process_decl`).
 
 The model mirrors the code *including its defects*:
-* `assign_at_index` / `unset_index` have no readonly check (`declare -r a=(1 2); a[0]=x` succeeds);
 * `apply_assignment` with `required_scope = Command` accepts a binding found in *any* command scope,
   so a nested `x=2 cmd` inside `x=1 f` overwrites the outer temporary binding;
 * `iter_exported` filters on `exported` before the shadowing test, so an exported binding hidden by a
@@ -229,8 +228,9 @@ def Var.assignEmptyArray (v : Var) : R :=
     | .assoc _ | .unset .assoc => ({ v with value := .assoc [] }, true)
     | _ => ({ v with value := .indexed [] }, true)
 
-/-- `ShellVariable::assign_at_index` — note: no readonly check of its own. -/
+/-- `ShellVariable::assign_at_index` (starts with the readonly check) -/
 def Var.assignAtIndex (v : Var) (idx : Str) (val : Str) (append : Bool) : R :=
+  if v.readonly then (v, false) else
   match v.value with
   | .unset _ =>
     let (v1, ok) := v.assignEmptyArray
@@ -283,8 +283,9 @@ def Var.assign (v : Var) (lit : Lit) (append : Bool) : R :=
     let lit' := v.convLit lit
     if append then v.assignAppend lit' else v.assignSet lit'
 
-/-- `ShellVariable::unset_index` — no readonly check. Returns the variable, `Ok`/`Err`. -/
+/-- `ShellVariable::unset_index` (starts with the readonly check). Returns the variable, `Ok`/`Err`. -/
 def Var.unsetIndex (v : Var) (idx : Str) : R :=
+  if v.readonly then (v, false) else
   match v.value with
   | .unset .untyped => (v, false)
   | .unset _ => (v, true)
